@@ -623,4 +623,130 @@ end
 def writeRoutes (t : HTree) (dst : DstEnds) (root : Nat) : Option Routes :=
   writeNode (4 * (t.nodes.length + t.edges.length + 2)) t dst [] root none
 
+/-! ## rewriting the connector ends (`updateConnEnds`, run by `execute` when major changes are allowed) -/
+
+/-- one end of a connector as the tree code sees it (`ConnRef::endpointConnEnds()`): is it a junction
+    end (and which junction), an empty end, or something else (point / shape pin) -/
+inductive CEnd where
+  | junction (j : Nat)
+  | empty
+  | other
+  deriving Repr, BEq, DecidableEq, Inhabited
+
+def CEnd.junction? : CEnd → Option Nat
+  | .junction j => some j
+  | _ => none
+
+/-- `type() != ConnEndJunction && type() != ConnEndEmpty` -/
+def CEnd.isOther : CEnd → Bool
+  | .other => true
+  | _ => false
+
+/-- connector ↦ (source end, target end) -/
+abbrev EndsMap := List (Nat × CEnd × CEnd)
+
+def EndsMap.get? (m : EndsMap) (c : Nat) : Option (CEnd × CEnd) := (m.find? (fun p => p.1 == c)).map (·.2)
+
+/-- `conn->updateEndPoint(src|tar, ConnEnd(junction))` -/
+def EndsMap.setEnd (m : EndsMap) (c : Nat) (src : Bool) (j : Nat) : EndsMap :=
+  m.map (fun p => if p.1 == c then (if src then (c, .junction j, p.2.2) else (c, p.2.1, .junction j)) else p)
+
+/-- `travellingForwardOnConnector(conn, junction)` -/
+def travellingForward (e : CEnd × CEnd) (j : Nat) : Bool :=
+  if e.1.junction? == some j then true
+  else if e.2.junction? == some j then false
+  else if e.1.isOther then false
+  else if e.2.isOther then true
+  else true
+
+/-- state threaded through the traversal: the ends and `changedConns` -/
+structure UpdState where
+  ends : EndsMap
+  changed : List Nat
+
+mutual
+/-- `HyperedgeTreeNode::updateConnEnds(ignored, forward, changedConns)`; `forward` is a local that the
+    loop overwrites at junction nodes -/
+def updNode : Nat → HTree → UpdState → Nat → Option Nat → Bool → Option UpdState
+  | 0, _, _, _, _, _ => none
+  | f + 1, t, u, n, ign, fwd =>
+    match t.node? n with
+    | none => none
+    | some nd => updLoop f t u nd ign fwd nd.edges
+def updLoop : Nat → HTree → UpdState → HNode → Option Nat → Bool → List Nat → Option UpdState
+  | 0, _, _, _, _, _, _ => none
+  | _ + 1, _, u, _, _, _, [] => some u
+  | f + 1, t, u, nd, ign, fwd, e :: rest =>
+    if some e = ign then updLoop f t u nd ign fwd rest else
+    match t.edge? e with
+    | none => none
+    | some ed =>
+      match nd.junction with
+      | some j =>
+        match ed.conn with
+        | none => none
+        | some c =>
+          match u.ends.get? c with
+          | none => none
+          | some ce =>
+            let fwd' := travellingForward ce j
+            let existing := if fwd' then ce.1 else ce.2
+            let u1 : UpdState :=
+              if existing.junction? != some j then
+                { ends := u.ends.setEnd c fwd' j, changed := u.changed ++ [c] }
+              else u
+            match updEdge f t u1 e nd.id fwd' with
+            | none => none
+            | some u2 => updLoop f t u2 nd ign fwd' rest
+      | none =>
+        match updEdge f t u e nd.id fwd with
+        | none => none
+        | some u2 => updLoop f t u2 nd ign fwd rest
+/-- `HyperedgeTreeEdge::updateConnEnds(ignored, forward, changedConns)`: recursion first, then the far
+    junction (if the far node carries one) is written to the connector's other end -/
+def updEdge : Nat → HTree → UpdState → Nat → Nat → Bool → Option UpdState
+  | 0, _, _, _, _, _ => none
+  | f + 1, t, u, e, ign, fwd =>
+    match t.edge? e with
+    | none => none
+    | some ed =>
+      match ed.e1, ed.e2 with
+      | some a, some b =>
+        let r1 : Option (UpdState × Option Nat) :=
+          if a != ign then (updNode f t u a (some e) fwd).map (fun x => (x, some a)) else some (u, none)
+        match r1 with
+        | none => none
+        | some (u1, end1) =>
+          let r2 : Option (UpdState × Option Nat) :=
+            if b != ign then (updNode f t u1 b (some e) fwd).map (fun x => (x, some b)) else some (u1, end1)
+          match r2 with
+          | none => none
+          | some (u2, endNode) =>
+            match endNode with
+            | none => none                                  -- null `endNode` is dereferenced
+            | some en =>
+              match t.node? en with
+              | none => none
+              | some enn =>
+                match enn.junction with
+                | none => some u2
+                | some j =>
+                  match ed.conn with
+                  | none => none
+                  | some c =>
+                    match u2.ends.get? c with
+                    | none => none
+                    | some ce =>
+                      let existing := if fwd then ce.2 else ce.1
+                      if existing.junction? != some j then
+                        some { ends := u2.ends.setEnd c (!fwd) j,
+                               changed := if u2.changed.getLast? == some c then u2.changed else u2.changed ++ [c] }
+                      else some u2
+      | _, _ => none
+end
+
+/-- `treeRoot->updateConnEnds(nullptr, true, changed)` -/
+def updateConnEnds (t : HTree) (ends : EndsMap) (root : Nat) : Option UpdState :=
+  updNode (4 * (t.nodes.length + t.edges.length + 2)) t { ends := ends, changed := [] } root none true
+
 end AdaptaVerif.Model.HyperTree
